@@ -189,7 +189,7 @@ func createFilesInTar(info *nfpm.Info, tw *tar.Writer) ([]MtreeEntry, int64, err
 		case files.TypeDir, files.TypeImplicitDir:
 			entries = append(entries, MtreeEntry{
 				Destination: content.Destination,
-				Time:        content.ModTime().Unix(),
+				Time:        mtreeTime(content.ModTime()),
 				Mode:        content.UnixMode(),
 				Type:        files.TypeDir,
 			})
@@ -217,7 +217,7 @@ func createFilesInTar(info *nfpm.Info, tw *tar.Writer) ([]MtreeEntry, int64, err
 			entries = append(entries, MtreeEntry{
 				LinkSource:  content.Source,
 				Destination: content.Destination,
-				Time:        content.ModTime().Unix(),
+				Time:        mtreeTime(content.ModTime()),
 				Mode:        0o777,
 				Type:        content.Type,
 			})
@@ -267,7 +267,7 @@ func createFilesInTar(info *nfpm.Info, tw *tar.Writer) ([]MtreeEntry, int64, err
 
 			entries = append(entries, MtreeEntry{
 				Destination: content.Destination,
-				Time:        content.ModTime().Unix(),
+				Time:        mtreeTime(content.ModTime()),
 				Mode:        content.UnixMode(),
 				Size:        content.Size(),
 				Type:        content.Type,
@@ -280,6 +280,16 @@ func createFilesInTar(info *nfpm.Info, tw *tar.Writer) ([]MtreeEntry, int64, err
 	}
 
 	return entries, totalSize, nil
+}
+
+// mtreeTime is the time that the tar header of an entry carries: unless a
+// format is requested archive/tar rounds ModTime to the nearest second, and it
+// writes the zero time (implied directories of a package without mtime) as 0.
+func mtreeTime(t time.Time) int64 {
+	if t.IsZero() {
+		return 0
+	}
+	return t.Round(time.Second).Unix()
 }
 
 func defaultStr(s, def string) string {
@@ -383,13 +393,14 @@ func createPkginfo(info *nfpm.Info, tw *tar.Writer, totalSize int64) (*MtreeEntr
 	}
 
 	size := buf.Len()
+	mtime := modtime.Get(info.MTime)
 
 	err = tw.WriteHeader(&tar.Header{
 		Typeflag: tar.TypeReg,
 		Mode:     0o644,
 		Name:     ".PKGINFO",
 		Size:     int64(size),
-		ModTime:  modtime.Get(info.MTime),
+		ModTime:  mtime,
 	})
 	if err != nil {
 		return nil, err
@@ -407,7 +418,7 @@ func createPkginfo(info *nfpm.Info, tw *tar.Writer, totalSize int64) (*MtreeEntr
 
 	return &MtreeEntry{
 		Destination: ".PKGINFO",
-		Time:        modtime.Get(info.MTime).Unix(),
+		Time:        mtreeTime(mtime),
 		Mode:        0o644,
 		Size:        int64(size),
 		Type:        files.TypeFile,
